@@ -4,3 +4,14 @@ claim("C11", "MIR alias/provenance slice + dominance rules (custom rustc_private
       "table and the one given to the fetch task are one allocation, (b) taking the in-flight entry sets it before the waiters are handed "
       "out, (c) both fetch polls are dominated by a test of the flag whose true edge returns without inserting. Necessary conditions of the "
       "property for every schedule; the residual same-poll race is not decided.", "DESIGN.md §4 C11")
+claim("C05", "MIR path rules: must-pass-through pairing of index mutations with usage/entries updates, comparison decision table, who-may-write",
+      "Decides on every path of every RawCacheShard method that each Indexer::{remove,insert,drain} is matched by the usage and entries "
+      "updates the property needs (right sign, right record's weight), that only shard methods write those fields, that the eviction loop "
+      "pops exactly while usage > target (3-row ordering table), that emplace evicts to capacity-weight(new) before inserting, that resize "
+      "stores and evicts to the same value, and that an entry's weight is computed once. Numerical exactness over histories is not decided.",
+      "DESIGN.md §4 C05")
+claim("C18", "MIR ownership (forward move-flow) + who-may-call/write rules + comparison table",
+      "Decides that every reference-count increment handed out of the shard lock is moved into a RawCacheEntry (whose Drop decrements exactly "
+      "once and releases only at zero), that emplace counts one reference per waiter plus one, that LRU pop never reads the pin list while "
+      "acquire/release/clear maintain it, that is_outdated is the negated in-indexer flag written only by the Sentry wrapper, and that no code "
+      "path writes or mutably borrows Record.data. Capacity re-establishment over sequences is not decided.", "DESIGN.md §4 C18")
